@@ -1316,7 +1316,7 @@ func TestReplay(t *testing.T) {
 			f, _ := checkTransparent(c, s)
 			return f
 		},
-		"acting":   acting,
+		"acting": acting,
 		"restored": func(b []byte, s *rt.Section) *rt.Failure {
 			var c RCase
 			if err := json.Unmarshal(b, &c); err != nil {
